@@ -9,6 +9,8 @@ import Driver.C12
 import Driver.C08
 import Driver.C09
 import Driver.C15
+import Driver.C01
+import Driver.C10
 import Driver.C19
 import Driver.Ring
 open Driver
@@ -26,6 +28,8 @@ def main (args : List String) : IO UInt32 := do
   | ["C08"] => run C08.handler
   | ["C09"] => run C09.handler
   | ["C15"] => run C15.handler
+  | ["C01"] => run C01.handler
+  | ["C10"] => run C10.handler
   | ["C19"] => run C19.handler
   | ["C04"] => run (Ring.handler "C04")
   | ["C05"] => run (Ring.handler "C05")
